@@ -147,6 +147,7 @@ class Console:
         self.silent_from: Optional[int] = None  # handshake step index from which the console stops answering
         self.noise: dict[int, list[bytes]] = {}  # step index -> raw frames sent before the answer
         self.segment: Optional[Callable[[bytes], list[bytes]]] = None
+        self.turns = 0          # event-loop iterations the client gets between two segments
         self.answer_controls = False
         self.manual = False                     # True: never answer, only record
         self.pid = 100
@@ -164,6 +165,10 @@ class Console:
         for ch in chunks:
             if ch and not conn.lost and not conn.client_closed:
                 conn.transport.peer_bytes(ch)
+                for _ in range(self.turns):
+                    loop = self.net.loop
+                    loop.call_soon(loop.stop)
+                    loop.run_forever()
 
     def push(self, msg, to: int = 0xB0) -> None:
         """An unsolicited frame on the current connection."""
